@@ -12,7 +12,7 @@ RULE = ("lanelets from generated centre polylines (2..8 vertices, straight / cur
         "graph with >=1 edge")
 ANCHORS = ["Lanelet.interpolate_position", "Lanelet.merge_lanelets", "Lanelet.find_lanelet_successors_in_range",
            "Lanelet.find_lanelet_predecessors_in_range", "Lanelet._compute_polyline_cumsum_dist"]
-REQUIRED = ["interp.at-vertex", "interp.same-arc-length-after-moving-the-lanelet", "interp.zero", "interp.full-length", "interp.interior", "merge.pred-first",
+REQUIRED = ["lanelet.reduced-from-3d-after-its-length-was-asked", "interp.at-vertex", "interp.same-arc-length-after-moving-the-lanelet", "interp.zero", "interp.full-length", "interp.interior", "merge.pred-first",
             "merge.suc-first", "merge.nonuniform-spacing", "graph.cyclic", "graph.diamond-or-merge", "graph.branching",
             "range.equal-to-partial-length", "pred-search", "succ-search", "graph.curved-lanelets", "poly.int-dtype", "graph.neighbour-list-not-ascending", "merge.link-predecessor-list-only", "merge.link-successor-list-only", "merge.via-all_lanelets_by_merging"]
 EXHAUSTIVE = {"quick": "all directed graphs without self loops on 1..3 nodes (as successor relations) x start node x "
@@ -110,6 +110,15 @@ def run(ctx):
             la = Lanelet(cen + np.array([0, 2]), cen, cen - np.array([0, 2]), 1)
         else:
             la = mk_lanelet(1, poly)
+            if i % 5 == 3:
+                # the lanelet came with elevation (3-D vertices), was measured, and was then reduced to the plane: from
+                # there on it is the plane lanelet of these vertices
+                zs = np.array([[0.5 * k * (1 + (k % 3))] for k in range(len(poly))], dtype=float)
+                la = Lanelet(np.hstack([la.left_vertices, zs]), np.hstack([la.center_vertices, zs]),
+                             np.hstack([la.right_vertices, zs]), 1)
+                _ = la.distance, la.inner_distance
+                la.convert_to_2d()
+                ctx.feature("lanelet.reduced-from-3d-after-its-length-was-asked")
         ctx.evaluation()
         ctx.fingerprint(["arc", kind, len(poly), round(poly[0][0], 3)])
         ctx.feature("poly." + kind)
